@@ -54,6 +54,55 @@ def enum_zero(binary, variant):
     return res
 
 
+def bigcount(binary, variant, seed):
+    """Sample sizes beyond 2^32 by repeated self-merging; two huge operands with different means merged; adds afterwards."""
+    import random
+    rng = random.Random(seed)
+    res = Result()
+    cases, plan = [], []
+    for typ in ('WeightedMeanWithError', 'WeightedMean'):
+        for ka, kb in [(16, 16), (31, 31), (32, 32), (33, 0), (33, 33), (40, 20), (53, 1)]:
+            pa = [(float(rng.randint(-20, 20)) + 0.5, rng.choice([0.0, 1.0, 0.25, 3.0])) for _ in range(rng.randint(2, 4))]
+            pb = [(float(rng.randint(30, 60)), rng.choice([1.0, 0.5, 2.0])) for _ in range(rng.randint(1, 3))]
+            if all(w == 0.0 for _, w in pa):
+                pa[0] = (pa[0][0], 1.0)
+            extras = [(float(rng.randint(100, 300)), 2.0), (-7.5, 0.0), (1.25, 1.0)]
+            c = Case('bc-%s-%d-%d' % (typ, ka, kb), typ, meta={'ka': ka, 'kb': kb})
+            c.op('N', 0)
+            c.op('A', 0, [v for p in pa for v in p])
+            for _ in range(ka):
+                c.op('M', 0, 0)
+            c.op('N', 1)
+            c.op('A', 1, [v for p in pb for v in p])
+            for _ in range(kb):
+                c.op('M', 1, 1)
+            r_ = rng.randint(0, 1)
+            c.op('M', r_, 1 - r_)
+            pairs_, counts = pa + pb, [2 ** ka] * len(pa) + [2 ** kb] * len(pb)
+            marks = [(c.op('O', r_), list(pairs_), list(counts))]
+            for e in extras:
+                c.op('A', r_, list(e))
+                pairs_, counts = pairs_ + [e], counts + [1]
+                marks.append((c.op('O', r_), list(pairs_), list(counts)))
+            cases.append(c)
+            plan.append((c, typ, marks))
+    logs = run_driver(binary, ''.join(c.text() for c in cases))
+    for c, typ, marks in plan:
+        recs = logs[c.id]
+        for r in recs:
+            if r.kind in ('p', 'e', 'd'):
+                res.violation(PROP, '%s:%s' % (typ, 'panic' if r.kind == 'p' else 'harness'),
+                              '%s with 2^%d / 2^%d-fold self-merged operands: op %d -> %s' % (typ, c.meta['ka'], c.meta['kb'], r.op, r.rest), c, variant)
+        by_op = {r.op: r for r in recs if r.kind == 'o'}
+        for opi, pr, cnt in marks:
+            if opi in by_op:
+                pairs.judge_weighted_multiset(PROP, typ, [p[0] for p in pr], [p[1] for p in pr], cnt, by_op[opi].kv, res, c, variant,
+                                              context='(self-merged 2^%d and 2^%d times)' % (c.meta['ka'], c.meta['kb']))
+                res.count('bigcount_states')
+        res.distinct.add(c.key())
+    return res
+
+
 def run(tier, seed):
     t0 = time.time()
     total = Result()
@@ -71,9 +120,11 @@ def run(tier, seed):
                       'seed': seed * 1000003 + s * 7919 + sum(map(ord, variant))} for s in range(nsh)]
             total.merge(common.run_shards(pairprop.shard, descs))
             total.merge(enum_zero(binary, variant))
+            if variant in ('release', 'dev'):
+                total.merge(bigcount(binary, variant, seed))
     except common.Inconclusive as e:
         total.inconclusive.append(str(e))
-    need = {'lopsided_histories': 8, 'nontrivial_states': 1000, 'states_with_zero_weight': 1000, 'merge_histories': 500, 'all_zero_weight_chunks': 20,
+    need = {'bigcount_states': 50, 'lopsided_histories': 8, 'nontrivial_states': 1000, 'states_with_zero_weight': 1000, 'merge_histories': 500, 'all_zero_weight_chunks': 20,
             'enumerated_zero_patterns': 100, 'nontrivial_merge_nodes': 500}
     return common.finish(PROP, tier, seed, total, RULE, t0, ASSUME, min_events=need,
                          extra={'builds': [v for v, _ in variants]})
